@@ -889,6 +889,142 @@ func (c *genctx) genGated() *scenario {
 	return sc
 }
 
+// genFollowUps: frames that are still on their way for a stream the server has refused or reset.
+func (c *genctx) genFollowUps() *scenario {
+	r := c.r
+	sc := &scenario{cfg: srvCfg{maxStreams: r.pick(1, 1, 2), maxHeaderList: 1 << 20, maxBody: r.pick(4<<20, 1500)}}
+	enc := newHenc(r)
+	block := func(sid uint32, method string, extra ...[2]string) []byte {
+		fs := [][2]string{{":method", method}, {":scheme", "https"}, {":path", pathVocab[r.intn(4)]}, {"x-tag", fmt.Sprint(sid)}}
+		fs = append(fs, extra...)
+		return enc.block(fs)
+	}
+	sid := uint32(1)
+	var live []uint32
+	// fill the slots: requests whose handlers stay busy
+	for i := 0; i < sc.cfg.maxStreams; i++ {
+		sc.evs = append(sc.evs, c.headerUnit(sid, block(sid, "GET"), true, true).evs...)
+		live = append(live, sid)
+		sid += 2
+	}
+	victim := sid
+	sid += 2
+	switch r.intn(3) {
+	case 0: // refused: over the limit
+		sc.evs = append(sc.evs, c.headerUnit(victim, block(victim, "POST"), false, true).evs...)
+	case 1: // reset by the server: malformed (upper-case name), the limit does not matter
+		sc.evs = append(sc.evs, event{kind: 'D', sid: live[0], resp: c.genResp()})
+		live = live[1:]
+		sc.evs = append(sc.evs, c.headerUnit(victim, block(victim, "POST", [2]string{"X-Bad", "v"}), false, true).evs...)
+	default: // reset by the server: body over the limit
+		sc.cfg.maxBody = 1500
+		sc.evs = append(sc.evs, event{kind: 'D', sid: live[0], resp: c.genResp()})
+		live = live[1:]
+		sc.evs = append(sc.evs, c.headerUnit(victim, block(victim, "POST"), false, false).evs...)
+		sc.evs = append(sc.evs, c.dataUnit(victim, r.bytes(1000), false).evs...)
+		sc.evs = append(sc.evs, c.dataUnit(victim, r.bytes(1000), false).evs...)
+	}
+	// what the peer had sent before it saw the RST_STREAM
+	for i := 1 + r.intn(4); i > 0; i-- {
+		var f frameSpec
+		switch r.intn(6) {
+		case 0:
+			f = newFrame('R', 0, victim)
+			f.code = 8
+		case 1:
+			f = newFrame('D', byte(r.pick(0, 1)), victim)
+			f.payload = r.bytes(r.pick(0, 1, 100))
+			if r.chance(60) {
+				f.flags |= 8
+				f.pad = r.pick(0, 1, 100, 255)
+			}
+		case 2:
+			f = newFrame('W', 0, victim)
+			f.inc = uint32(r.pick(1, 1000))
+		case 3:
+			f = newFrame('P', 0, victim)
+			f.dep = 0
+		case 4: // trailers, possibly split
+			sc.evs = append(sc.evs, c.headerUnit(victim, enc.block([][2]string{{"x-trailer", "t"}}), true, true).evs...)
+			continue
+		default:
+			f = newFrame('D', 0, victim)
+			f.payload = r.bytes(16384 - 256) // with the pad length octet and 255 octets of padding: exactly the frame size limit
+			f.flags |= 8
+			f.pad = 255
+		}
+		sc.evs = append(sc.evs, frameEv(f))
+	}
+	// a later request must still work, with headers that refer to what the victim's block inserted
+	for _, id := range live {
+		sc.evs = append(sc.evs, event{kind: 'D', sid: id, resp: c.genResp()})
+	}
+	sc.evs = append(sc.evs, c.headerUnit(sid, block(sid, "GET"), true, true).evs...)
+	sc.evs = append(sc.evs, event{kind: 'D', sid: sid, resp: c.genResp()})
+	f := newFrame('W', 0, 0)
+	f.inc = 1 << 22
+	sc.evs = append(sc.evs, frameEv(f), event{kind: 'E'})
+	return sc
+}
+
+// genEndlessField: a header field that never completes, carried from CONTINUATION to CONTINUATION,
+// on a live stream or on one whose block is being discarded.
+func (c *genctx) genEndlessField() *scenario {
+	r := c.r
+	sc := &scenario{cfg: srvCfg{maxStreams: r.pick(1, 100), maxHeaderList: r.pick(400, 3000), maxBody: 4 << 20}}
+	sid := uint32(1)
+	if r.bool() { // take the only slot first, so that the block below belongs to a refused stream
+		sc.cfg.maxStreams = 1
+		f := newFrame('H', 5, sid)
+		f.payload = []byte{0x82, 0x84, 0x87}
+		sc.evs = append(sc.evs, frameEv(f))
+		sid += 2
+	}
+	h := newFrame('H', 1, sid)
+	// :method GET, :scheme https, :path /, then a literal with a name of 1 octet and a value declared 100000 octets long
+	h.payload = append([]byte{0x82, 0x87, 0x84, 0x00, 0x01, 0x61, 0x7f}, 0xa1, 0x8c, 0x06)
+	sc.evs = append(sc.evs, frameEv(h))
+	n := 2 + r.intn(12)
+	for i := 0; i < n; i++ {
+		f := newFrame('C', 0, sid)
+		f.payload = r.bytes(r.pick(100, 300, 1000))
+		sc.evs = append(sc.evs, frameEv(f))
+	}
+	sc.evs = append(sc.evs, event{kind: 'E'})
+	return sc
+}
+
+// genFloodAfterError: a connection error the stream loop finds, with a lot more traffic already
+// written behind it in the same burst.
+func (c *genctx) genFloodAfterError() *scenario {
+	r := c.r
+	sc := &scenario{cfg: srvCfg{maxStreams: 100, maxHeaderList: 1 << 20, maxBody: 4 << 20}}
+	f := newFrame('H', 5, 1)
+	f.payload = []byte{0x82, 0x84, 0x87}
+	sc.evs = append(sc.evs, frameEv(f))
+	var burst []frameSpec
+	w := newFrame('W', 0, 0)
+	w.inc = 1<<31 - 1 // overflows the connection window: the stream loop sends GOAWAY and stops
+	burst = append(burst, w)
+	for i := 150 + r.intn(300); i > 0; i-- {
+		switch r.intn(3) {
+		case 0:
+			x := newFrame('W', 0, 0)
+			x.inc = 1
+			burst = append(burst, x)
+		case 1:
+			x := newFrame('W', 0, 1)
+			x.inc = 1
+			burst = append(burst, x)
+		default:
+			x := newFrame('S', 0, 0)
+			burst = append(burst, x)
+		}
+	}
+	sc.evs = append(sc.evs, event{kind: 'M', burst: burst}, event{kind: 'E'})
+	return sc
+}
+
 func genServer(c *genctx) {
 	n := c.n
 	for i := 0; i < n; i++ {
@@ -901,6 +1037,15 @@ func genServer(c *genctx) {
 		case i%16 == 5:
 			sc = c.genGated()
 			kind = "gated-read-loop-ahead"
+		case i%16 == 9:
+			sc = c.genFollowUps()
+			kind = "in-flight-after-refusal-or-reset"
+		case i%32 == 13:
+			sc = c.genEndlessField()
+			kind = "endless-header-field"
+		case i%64 == 29:
+			sc = c.genFloodAfterError()
+			kind = "flood-after-connection-error"
 		case i%4 == 1:
 			sc = c.genServerScenario(true)
 			kind = "offence-message"
